@@ -242,11 +242,20 @@ def impl_cli(case, workdir):
                 with open(tg, 'w') as f:
                     f.write('pre')
         ns = build_namespace(case, events)
-        cfg = {'dep_file': 'db.json', 'backend': 'json', 'verbosity': 0, 'reporter': _reporter_class()}
+        # doit's own reporters write to the stream bound at import time (the real stdout): send them to a file
+        cfg = {'dep_file': 'db.json', 'backend': 'json', 'verbosity': 0, 'outfile': 'report.out'}
+        rep_opt = []
+        reporter = case.get('reporter')          # None: the recording reporter class; else one of doit's own
+        if reporter is None:
+            cfg['reporter'] = _reporter_class()
+        elif case.get('reporter_via') == 'config':
+            cfg['reporter'] = reporter
+        else:
+            rep_opt = ['-r', reporter] if case.get('reporter_via') != 'long' else ['--reporter=' + reporter]
         if case.get('default') is not None:
             cfg['default_tasks'] = list(case['default'])
         ns['DOIT_CONFIG'] = cfg
-        argv = ['run'] + (['--single'] if case.get('single') else []) + list(case['argv'])
+        argv = ['run'] + rep_opt + (['--single'] if case.get('single') else []) + list(case['argv'])
         with contextlib.redirect_stdout(out_s), contextlib.redirect_stderr(err_s):
             try:
                 code = DoitMain(ModuleTaskLoader(ns)).run(argv)
@@ -267,26 +276,41 @@ def impl_cli(case, workdir):
             started.append(name)
     ran = [e[1] for e in events if e[0] == 'run']
     kwargs = {e[1]: e[2] for e in events if e[0] == 'run'}
-    return {'exit': code, 'error': classify_stderr(err_s.getvalue()), 'processed': processed, 'started': started,
+    actions_only = case.get('reporter') is not None
+    if actions_only:
+        # doit's own reporter was in use: what is observed is what the recording actions wrote, in their order
+        processed = list(dict.fromkeys(ran))
+        started = list(processed)
+    return {'actions_only': actions_only, 'exit': code, 'error': classify_stderr(err_s.getvalue()), 'processed': processed, 'started': started,
             'ran': ran, 'kwargs': kwargs, 'reporter': rec,
             'runtime_error': [r[1] for r in rec if r[0] == 'runtime_error']}
 
 
 def obs_for_monitor(cli):
     code = cli['exit'] if isinstance(cli['exit'], int) else 99
-    return {'exit': code, 'processed': cli['processed'], 'started': cli['started'], 'ran': cli['ran']}
+    return {'exit': code, 'processed': cli['processed'], 'started': cli['started'], 'ran': cli['ran'],
+            'actions_only': bool(cli.get('actions_only'))}
 
 
 # ----------------------------------------------------------------------------------------------
 # generator
 
 NAME_POOLS = [
+    # legal literal names made of glob metacharacters (only `*` makes a task_dep / an argument a pattern)
+    ['a[1]', 'a1', 'a?', 'a', 'ab', 'b]'],
+    ['c[ab]', 'ca', 'cb', 'c', '[c]', 'c??'],
     ['a', 'ab', 'abc', 'b', 'ba', 'c'],
     ['t1', 't2', 't10', 't', 'tt', 'x1'],
     ['build', 'build_all', 'bundle', 'test', 'test_x', 'lint'],
     ['p', 'pq', 'q', 'qp', 'pp', 'r'],
 ]
-SUB_NAMES = ['a', 'b', 's1', 'x', 'ab']
+SUB_NAMES = ['a', 'b', 's1', 'x', 'ab', 'case[1]', 'case1', 's?']
+
+
+def lit_pattern(pat):
+    """generated PATTERNS stay inside what the model's glob supports (`*`, `?`, literals): a `[` or `]` taken over from
+    a task name becomes `?` (still matches that name)"""
+    return pat.replace('[', '?').replace(']', '?')
 TARGET_POOL = ['o1.out', 'o2.out', 'gen.c', 'a', 'b', 't1', 'build', 'p', 'q.o', 'ab:c']
 
 
@@ -373,7 +397,7 @@ def gen_taskdef(rng, name, earlier, targets_free, allow_attrs=True):
         if rng.random() < 0.12:
             base = rng.choice(earlier)
             pat = rng.choice([base[:1] + '*', base + '*', '*' + base[-1:], base[:1] + '?*', 'zz*', base.split(':')[0] + ':*'])
-            d['task_dep'].append(pat)
+            d['task_dep'].append(lit_pattern(pat))
     if targets_free and rng.random() < 0.35:
         d['targets'] = [targets_free.pop(rng.randrange(len(targets_free)))]
     if rng.random() < 0.3:
@@ -396,7 +420,7 @@ def gen_tasks(rng, delayed_ok=False):
             g = {'name': name, 'task_dep': [], 'subs': []}
             if earlier and rng.random() < 0.15:
                 # group attributes given with a `name: None` dict: the group depends on something besides its sub-tasks
-                g['task_dep'] = [rng.choice(earlier + [rng.choice(earlier)[:1] + '*'])]
+                g['task_dep'] = [rng.choice(earlier + [lit_pattern(rng.choice(earlier)[:1] + '*')])]
             for sn in rng.sample(SUB_NAMES, rng.choice([1, 2, 2, 3])):
                 sd = gen_taskdef(rng, sn, earlier, targets_free)
                 g['subs'].append(sd)
@@ -478,9 +502,10 @@ def name_like_tokens(rng, case):
         return rng.choice(targets)
     if r < 0.87:
         base = rng.choice(names)
-        return rng.choice(['*', base[:1] + '*', base + '*', '*' + base[-1:], base[:1] + '?*', '?' * len(base) + '*',
-                           base.split(':')[0] + ':*', '*:*', 'zz*', base[:-1] + '*' if len(base) > 1 else 'q*',
-                           '*' + base[1:], base[:1] + '*' + base[-1:]])
+        return lit_pattern(rng.choice(
+            ['*', base[:1] + '*', base + '*', '*' + base[-1:], base[:1] + '?*', '?' * len(base) + '*',
+             base.split(':')[0] + ':*', '*:*', 'zz*', base[:-1] + '*' if len(base) > 1 else 'q*',
+             '*' + base[1:], base[:1] + '*' + base[-1:]]))
     delayed = [f[0] for f in defs if f[1].get('delayed')]
     if delayed and r < 0.93:
         return rng.choice(delayed) + rng.choice([':x', ':sub:y', ':'])
@@ -534,6 +559,11 @@ def gen_case(rng, delayed_ok=None):
         case['default'] = gen_argv(rng, case) if rng.random() < 0.9 else []
         case['argv'] = saved if rng.random() < 0.35 else []
     case['single'] = rng.random() < 0.3
+    r = rng.random()
+    if r < 0.35:
+        # the cli run uses one of doit's own reporters; the start order is then taken from the recording actions
+        case['reporter'] = rng.choice(['json', 'json', 'json', 'zero', 'executed-only', 'console', 'error-only'])
+        case['reporter_via'] = rng.choice(['short', 'long', 'config'])
     return case
 
 
@@ -550,5 +580,9 @@ def render(case):
                 attrs.append(key)
         parts.append('%s%s(%s)' % (full, '[group]' if is_group else '', ', '.join(attrs)))
     cfg = '' if case.get('default') is None else ' DOIT_CONFIG default_tasks=%s' % case['default']
-    return 'tasks: %s;%s  $ doit run %s%s' % ('; '.join(parts), cfg, '--single ' if case.get('single') else '',
+    if case.get('reporter') is not None:
+        if case.get('reporter_via') == 'config':
+            cfg += ' DOIT_CONFIG reporter=%r' % case['reporter']
+    rep = '' if case.get('reporter') is None or case.get('reporter_via') == 'config' else '-r %s ' % case['reporter']
+    return 'tasks: %s;%s  $ doit run %s%s%s' % ('; '.join(parts), cfg, rep, '--single ' if case.get('single') else '',
                                               ' '.join(repr(a) for a in case['argv']))
